@@ -174,10 +174,22 @@ func (r *Run) reportRace(a epoch, aw bool, b epoch, bw bool) {
 	}
 }
 
+// escapePtr / escapeMap receive every recorded location.  Storing the pointer
+// in a package-level variable makes the recorded object escape in the eyes of
+// the compiler, so it is allocated on the heap: the monitor identifies
+// locations by address, stack memory is recycled (a stack that grows is moved
+// and its old memory reused at once, also by heap objects), and with the
+// collector held during an execution heap addresses are not.
+var (
+	escapePtr unsafe.Pointer
+	escapeMap any
+)
+
 // R records a read of *p and returns p (identity).
 func R[T any](p *T) *T {
 	if r := rcur; r != nil && r.cfg.Races {
 		r.access(uintptr(unsafe.Pointer(p)), false, 1)
+		escapePtr = unsafe.Pointer(p)
 	}
 	return p
 }
@@ -186,6 +198,7 @@ func R[T any](p *T) *T {
 func W[T any](p *T) *T {
 	if r := rcur; r != nil && r.cfg.Races {
 		r.access(uintptr(unsafe.Pointer(p)), true, 1)
+		escapePtr = unsafe.Pointer(p)
 	}
 	return p
 }
@@ -194,6 +207,7 @@ func W[T any](p *T) *T {
 func RMap[M ~map[K]V, K comparable, V any](m M) M {
 	if r := rcur; r != nil && r.cfg.Races && m != nil {
 		r.access(*(*uintptr)(unsafe.Pointer(&m)), false, 1)
+		escapeMap = m
 	}
 	return m
 }
@@ -202,6 +216,7 @@ func RMap[M ~map[K]V, K comparable, V any](m M) M {
 func WMap[M ~map[K]V, K comparable, V any](m M) M {
 	if r := rcur; r != nil && r.cfg.Races && m != nil {
 		r.access(*(*uintptr)(unsafe.Pointer(&m)), true, 1)
+		escapeMap = m
 	}
 	return m
 }
@@ -231,6 +246,7 @@ func AtomicPoint(kind string, p unsafe.Pointer) {
 func ObjR[T any](p *T) *T {
 	if r := rcur; r != nil && r.cfg.Races && p != nil {
 		r.access(uintptr(unsafe.Pointer(p)), false, 1)
+		escapePtr = unsafe.Pointer(p)
 	}
 	return p
 }
@@ -239,6 +255,7 @@ func ObjR[T any](p *T) *T {
 func ObjW[T any](p *T) *T {
 	if r := rcur; r != nil && r.cfg.Races && p != nil {
 		r.access(uintptr(unsafe.Pointer(p)), true, 1)
+		escapePtr = unsafe.Pointer(p)
 	}
 	return p
 }
